@@ -15,6 +15,8 @@ RULE = ("stream 'chunking': random sequences of non-empty frames (1 B..>64 KiB, 
         "and to integer literals harvested from the current source ±1) cut at random points incl. inside the 3-byte header, "
         "optionally cut short in the middle of a frame; stream 'exhaustive' (thorough): every composition of a stream of at most "
         "N bytes into frames x every partition into chunks; stream 'send': payload sizes around every boundary incl. 2^24-1, 2^24, 2^24+1; "
+        "stream 'reconnect': a connection lost k bytes into a frame (k anywhere from 1 to the frame's end - 1), DISCONNECTED delivered to the layer, then the frames of a new "
+        "connection, both streams cut at random: everything complete before the loss and every frame of the new connection is delivered, nothing else; "
         "stream 'pipeline': 1-5 random stanza trees through the real coder layer and the real segment layer's send side, the written bytes cut at random points, "
         "then the real segment layer's receive side and the real coder layer: the trees handed upward must be the trees sent (Props/Pipeline.lean), and every "
         "delivered frame is decoded by the Lean coder model as well; "
@@ -103,6 +105,13 @@ def cases(chk):
                 pos += 3 + len(f) // 2
             cuts = sorted(set(cuts + [c for c in hc if 0 < c < avail]))
         yield "chunking", {"frames": frames, "cuts": cuts, "tail": tail}
+    # a connection lost in the middle of a frame (anywhere: inside the header, right after it, deep in the payload), then a new connection
+    # on the same layer whose first frame has a different length
+    for _ in range(chk.scale(150, 4000)):
+        f1 = [bytes(r.randrange(256) for _ in range(_sizes(chk) % 300 + 1)).hex() for _i in range(r.randint(1, 3))]
+        last = 3 + len(f1[-1]) // 2
+        f2 = [bytes(r.randrange(256) for _ in range(_sizes(chk) % 300 + 1)).hex() for _i in range(r.randint(1, 3))]
+        yield "reconnect", {"frames1": f1, "keep": r.randint(1, last - 1), "frames2": f2, "ncuts": r.choice([0, 1, 2, 4]), "cutseed": r.randrange(1 << 30)}
     for _ in range(chk.scale(120, 3000)):
         trees_ = [chk.gen.tree() for _i in range(r.randint(1, 5))]
         yield "pipeline", {"trees": [to_json(t) for t in trees_], "cutseed": r.randrange(1 << 30), "ncuts": r.choice([0, 1, 2, 3, 5, 9, 17])}
@@ -197,6 +206,31 @@ def run_case(chk, stream, case):
                                 "sent %d frames (sizes %s) cut at %s tail=%d: delivered sizes %s%s"
                                 % (len(frames), [len(f) for f in frames][:8], cuts[:12], tail, [len(d) for d in delivered][:8],
                                    "" if [len(d) for d in delivered] != [len(e) for e in expect] else " (content differs)")))
+    elif stream == "reconnect":
+        import random
+        from yowsup.layers import YowLayerEvent
+        from yowsup.layers.network import YowNetworkLayer
+        rr = random.Random(case["cutseed"])
+        fr1 = [bytes.fromhex(f) for f in case["frames1"]]
+        fr2 = [bytes.fromhex(f) for f in case["frames2"]]
+        s1 = b"".join(be24(len(f)) + f for f in fr1)
+        s1 = s1[:len(s1) - (3 + len(fr1[-1])) + case["keep"]]          # the last frame of the first connection arrives only in part
+        s2 = b"".join(be24(len(f)) + f for f in fr2)
+        layer, _stack, bottom, top = _mk(True)
+        chk.driver.ask("seg reset 1")
+
+        def cut(data):
+            cuts = sorted(set(rr.randint(1, max(1, len(data) - 1)) for _ in range(case["ncuts"]))) if len(data) > 1 else []
+            return _chunks(data, cuts)
+        got = _feed(chk, layer, top, cut(s1), fails, "reconnect")
+        bottom.emitEvent(YowLayerEvent(YowNetworkLayer.EVENT_STATE_DISCONNECTED, reason="lost"))
+        chk.driver.ask("seg reset 1")           # the model of on_disconnected: the read buffer is dropped (C04_source_orchestration: segReset)
+        got += _feed(chk, layer, top, cut(s2), fails, "reconnect")
+        chk.hit("reconnect:kept>3" if case["keep"] > 3 else "reconnect:kept<=3")
+        want = fr1[:-1] + fr2
+        if got != want:
+            fails.append(oracle("C05:frames-differ-after-reconnect", "first connection: frames of %s bytes, lost %d bytes into the last one; second connection: frames of %s bytes: delivered sizes %s"
+                                % ([len(f) for f in fr1], case["keep"], [len(f) for f in fr2], [len(g) for g in got][:10])))
     elif stream == "pipeline":
         import random
         from yowsup.layers.coder import YowCoderLayer
